@@ -219,6 +219,11 @@ def shapes():
         [S(1, V(1, A(2, T("c"))))],
         [S(1, V(1, S(2, A(2, T("b")))), A(3, T("z")))],
         [E("div", S(1, V(1, A(2, E("p", T("c")))), T("s")), S(2, V(3, T("r"))))],
+        # ONE resource read under several boundaries (two views of the same gate = the same Resource): every reading boundary is
+        # loading until the fetch completes (seed C13-h)
+        [S(1, V(1, T("a"))), S(2, V(1, T("b")))],
+        [S(1, S(2, V(1, T("b"))), V(1, T("a")))],
+        [E("div", S(1, V(1, T("a")), A(2, T("x"))), S(2, V(1, A(3, T("c")))), S(3, V(1, T("d"))))],
         # content that a cleanup callback changes when the render's scopes are disposed: the output must show the state the render reached
         [S(1, A(1, T("a")), LIVE)],
         [S(1, A(1, LIVE, T("b")))],
